@@ -338,6 +338,7 @@ def abs_sub(s):
     for k in SVC.values():
         if k[:3] == (s.service_id, s.instance_id, s.major_version):
             k3 = k
+            break       # (the first entry of the table: s6 / s7 differ from s1 / s2 in the minor version only)
     return {"svc": RSVC.get(k3, "s?"), "eg": s.id, "ctr": s.counter, "eps": eps, "ttl": s.ttl}
 
 
